@@ -14,6 +14,7 @@ import (
 	"github.com/csgura/fp/hash"
 	"github.com/csgura/fp/immutable"
 	"github.com/csgura/fp/iterator"
+	"github.com/csgura/fp/lazy"
 	"github.com/csgura/fp/list"
 	"github.com/csgura/fp/monoid"
 	"github.com/csgura/fp/mutable"
@@ -842,6 +843,49 @@ func terminalLaws(r *Rng, fail func(key, input, what string)) int {
 	}
 	eq("iterator.ToMap", run(func() string { return sortedMap(iterator.ToMap(iterator.Map(it(), tup), hs)) }), sortedMap(seq.ToMap(seq.Map(sx, tup), hs)))
 	eq("iterator.ToGoMap", run(func() string { return Show(len(iterator.ToGoMap(iterator.Map(it(), tup)))) }), Show(len(seq.ToGoMap(seq.Map(sx, tup)))))
+	// FoldRight hands the step function the REST as a deferred, memoised computation (lazy.TailCall): a step that forces it
+	// more than once (peek, then use) must see the same value both times, the source must be pulled once per element and the
+	// step must run once per element (C16 run-once; C12 same result as the eager right fold)  [seed C16-7]
+	{
+		wantV := 0
+		for i := len(xs) - 1; i >= 0; i-- {
+			wantV = xs[i] + 2*wantV
+		}
+		want := fmt.Sprintf("%d steps=%d pulls=%d", wantV, len(xs), len(xs))
+		twice := func(steps *int) func(int, lazy.Eval[int]) lazy.Eval[int] {
+			return func(x int, rest lazy.Eval[int]) lazy.Eval[int] {
+				*steps++
+				a := rest.Get()
+				b := rest.Get()
+				if a != b {
+					return lazy.Done(-1000000)
+				}
+				return rest.Map(func(v int) int { return x + v + a })
+			}
+		}
+		eq("iterator.FoldRight/twice", run(func() string {
+			steps, pulls, idx := 0, 0, 0
+			src := fp.MakeIterator(func() bool { return idx < len(xs) }, func() int { pulls++; v := xs[idx]; idx++; return v })
+			e := iterator.FoldRight(src, 0, twice(&steps))
+			v1 := e.Get()
+			v2 := e.Get()
+			if v1 != v2 {
+				return fmt.Sprintf("first Get %d, second Get %d", v1, v2)
+			}
+			return fmt.Sprintf("%d steps=%d pulls=%d", v1, steps, pulls)
+		}), want)
+		eq("seq.FoldRight/twice", run(func() string {
+			steps := 0
+			v := seq.FoldRight(sx, 0, twice(&steps)).Get()
+			return fmt.Sprintf("%d steps=%d pulls=%d", v, steps, len(xs))
+		}), want)
+		eq("list.FoldRight/twice", run(func() string {
+			steps, pulls, idx := 0, 0, 0
+			src := fp.MakeIterator(func() bool { return idx < len(xs) }, func() int { pulls++; v := xs[idx]; idx++; return v })
+			v := list.FoldRight(iterator.ToList(src), 0, twice(&steps)).Get()
+			return fmt.Sprintf("%d steps=%d pulls=%d", v, steps, pulls)
+		}), want)
+	}
 	checks += listLaws(r, xs, fail)
 	return checks
 }
